@@ -113,7 +113,9 @@ class Interp:
         body = fi.node.body
         if self.single_exit:
             from .inline import _single_exit, _returns_outside_nested
-            if len(_returns_outside_nested(fi.node)) > 1 or (self.raise_leaf and any(isinstance(x, ast.Raise) for x in ast.walk(fi.node))):
+            rets_ = _returns_outside_nested(fi.node)
+            early = [r_ for r_ in rets_ if not (body and r_ is body[-1])]
+            if early or (self.raise_leaf and any(isinstance(x, ast.Raise) for x in ast.walk(fi.node))):
                 conv = _single_exit(list(body), lambda e: [ast.Assign(targets=[ast.Name(id="__ret__", ctx=ast.Store())],
                                                                        value=e if e is not None else ast.Constant(value=None))],
                                     (lambda st: [ast.Assign(targets=[ast.Name(id="__ret__", ctx=ast.Store())],
@@ -217,6 +219,10 @@ class Interp:
                             continue
                         if k in e1 and k in e2:
                             env[k] = self.merge(cond, e1[k], e2[k])
+                        elif k.startswith("self.") and self.d.self_attr(k[5:], st) is not None:
+                            # an attribute written on one arm only keeps its previous value on the other
+                            old_ = self.d.self_attr(k[5:], st)
+                            env[k] = self.merge(cond, e1.get(k, old_), e2.get(k, old_))
                         else:
                             env[k] = self.d.unknown()
             elif isinstance(st, (ast.With,)):
